@@ -154,7 +154,9 @@ func (p *memoryState[T]) SMembers(key string) ([]string, error) {
 		return []string{}, err
 	}
 
-	return set.([]string), nil
+	// Return a copy: callers iterate the result without holding the mutex
+	// while SRem/SAdd rewrite the stored slice in place.
+	return append([]string{}, set.([]string)...), nil
 }
 
 func (p *memoryState[T]) SRem(key string, value string) error {
